@@ -63,7 +63,7 @@ def run(ck):
                    "the line-shape function g(t) is the package's _c2g applied to the exciton-weighted correlation function (external, same call)",
                    "numpy.linalg.eigh in Hamiltonian.diagonalize (contract S orthogonal); numpy.fft.hfft contract: DFT of the Hermitian-completed signal"]
     ok = extract(ck)
-    ck.prove(PROPS, extra_modules=["QV.Drive.C11"])
+    ck.prove(PROPS, extra_modules=["QV.Drive.C11"], also=["QV.Props.C11Spectrum"])
     Nt = ck.n(300, 600)
     dt = 1.0
     ta = TimeAxis(0.0, Nt, dt)
@@ -166,7 +166,15 @@ def run(ck):
                 Da = sum(SS[k + 1, a] * D[k] for k in range(nmol))
                 dds.append(float(numpy.dot(Da, Da)))
                 oms.append(ee[a] - ee[0])
-                gts.append(absmod._c2g(ta, calc._excitonic_coft(SS, sysm, a - 1)))
+                ct_code = numpy.array(calc._excitonic_coft(SS, sysm, a - 1))
+                # the model's excCoft for independent baths (excCoft_diagonal): sum_k S[k,a]^4 c_k(t), from the site functions
+                ct_model = sum((SS[k + 1, a] ** 4) * numpy.array(sysm.monomers[k].get_egcf((0, 1))) for k in range(nmol))
+                ck.traces += 1
+                dvc = float(numpy.abs(ct_code - ct_model).max()) / max(1e-300, float(numpy.abs(ct_model).max()))
+                ck.resid("exciton correlation function vs participation-weighted sum of the site functions (relative)", dvc)
+                if dvc > 1e-12:
+                    ck.disagree("exciton correlation function is not sum_k S[k,a]^4 c_k(t)", dict(inp, exciton=a), dvc, 1e-12)
+                gts.append(absmod._c2g(ta, ct_model))
         t = numpy.array(ta.data)
         # --- correspondence: the Lean index map says which DFT each sample is ---------------------------------
         if ks is not None:
